@@ -25,6 +25,8 @@ structure Inst where
   selFileName : List (Int × String)
   /-- a database is loaded (`DatabaseLoaded`): Run* calls read their input only then -/
   loaded : Bool
+  /-- the accumulated-lines buffer (`StringInput`) is not empty -/
+  acc : Bool
   /-- SELECTED_OUTPUT blocks the engine holds (`Phreeqc::SelectedOutput_map`), in definition order: user number ↦ the
   `-file` name if one was given -/
   engSel : List (Int × Option String)
@@ -39,7 +41,7 @@ def fresh (id : Nat) : Inst :=
       | .out => s!"phreeqc.{id}.out" | .err => s!"phreeqc.{id}.err"
       | .log => s!"phreeqc.{id}.log" | .dump => s!"dump.{id}.out",
     cur := 1, selFileOn := [(1, false)], selStrOn := [(1, false)], selFileName := [(1, selName 1 id)],
-    loaded := false, engSel := [] }
+    loaded := false, acc := false, engSel := [] }
 
 def setAssoc {β} (m : List (Int × β)) (k : Int) (v : β) : List (Int × β) :=
   (k, v) :: m.filter (fun p => p.1 ≠ k)
@@ -72,7 +74,7 @@ def Inst.getSelName (i : Inst) : String := (i.selFileName.lookup i.cur).getD ""
 user number and the two per-number switch maps return to their initial state, the engine forgets its SELECTED_OUTPUT
 blocks; switches, the four file names and the per-number file-name map are user settings and are kept -/
 def Inst.unload (i : Inst) (ok : Bool) : Inst :=
-  { i with cur := 1, selFileOn := [(1, false)], selStrOn := [(1, false)], loaded := ok, engSel := [] }
+  { i with cur := 1, selFileOn := [(1, false)], selStrOn := [(1, false)], loaded := ok, acc := false, engSel := [] }
 
 inductive PunchChoice where
   | file (f : String) | dflt | keep
@@ -120,6 +122,9 @@ def Inst.rerun (i : Inst) : Inst × Int :=
   if !i.loaded then (i, 1) else
   ((reopenKeys i.engSel i.selFileOn none).foldl (fun j k => j.punchName k) i, 0)
 
+/-- `RunAccumulated`: with an empty buffer the simulation loop ends before anything is re-opened -/
+def Inst.runAcc (i : Inst) : Inst × Int := if i.acc then i.rerun else (i, if i.loaded then 0 else 1)
+
 /-- API-level operations (the C functions of IPhreeqc.h restricted to the settings store) -/
 inductive Call where
   | setSw (s : Sw) (v : Bool) | getSw (s : Sw)
@@ -128,6 +133,7 @@ inductive Call where
   | setSelFileOn (v : Bool) | getSelFileOn | setSelStrOn (v : Bool) | getSelStrOn
   | setSelName (v : Option String) | getSelName
   | unload (ok : Bool) | defSel (n : Int) (file : Option String) | rerun
+  | accumulate | clearAcc | runAcc
 
 /-- result of a call: an integer code or a string -/
 inductive Res where
@@ -152,6 +158,9 @@ def Inst.call (i : Inst) : Call → Inst × Res
   | .unload ok => (i.unload ok, .int (if ok then 0 else 1))
   | .defSel n f => let (j, r) := i.defSel n f; (j, .int r)
   | .rerun => let (j, r) := i.rerun; (j, .int r)
+  | .accumulate => ({ i with acc := true }, .int 0)
+  | .clearAcc => ({ i with acc := false }, .int 0)
+  | .runAcc => let (j, r) := i.runAcc; (j, .int r)
 
 /-- documented invalid-instance result of the C function behind a call -/
 def badResult : Call → Res
@@ -188,6 +197,7 @@ structure SInst where
   selStrOn : List (Int × Bool)
   selFileName : List (Int × SName)
   loaded : Bool
+  acc : Bool
   engSel : List (Int × Option String)
 
 inductive SRes where
@@ -200,12 +210,12 @@ def SRes.render (id : Nat) : SRes → Res
 def SInst.render (id : Nat) (s : SInst) : Inst :=
   { id := id, sw := s.sw, name := fun n => (s.name n).render id, cur := s.cur, selFileOn := s.selFileOn,
     selStrOn := s.selStrOn, selFileName := s.selFileName.map (fun p => (p.1, p.2.render id)), loaded := s.loaded,
-    engSel := s.engSel }
+    acc := s.acc, engSel := s.engSel }
 
 def sfresh : SInst :=
   { sw := fun s => match s with | .errStr => true | .errOn => true | _ => false,
     name := fun n => .dflt n, cur := 1, selFileOn := [(1, false)], selStrOn := [(1, false)],
-    selFileName := [(1, .dfltSel 1)], loaded := false, engSel := [] }
+    selFileName := [(1, .dfltSel 1)], loaded := false, acc := false, engSel := [] }
 
 def SInst.punchName (i : SInst) (n : Int) : SInst :=
   match punchChoice (i.engSel.lookup n).join (match i.selFileName.lookup n with | some x => x.isEmptyS | none => true) with
@@ -230,7 +240,7 @@ def SInst.call (i : SInst) : Call → SInst × SRes
   | .setSelName (some s) => (if s.isEmpty then i else { i with selFileName := setAssoc i.selFileName i.cur (.user s) }, .int 0)
   | .setSelName none => (i, .int 0)
   | .getSelName => (i, .name ((i.selFileName.lookup i.cur).getD (.user "")))
-  | .unload ok => ({ i with cur := 1, selFileOn := [(1, false)], selStrOn := [(1, false)], loaded := ok, engSel := [] },
+  | .unload ok => ({ i with cur := 1, selFileOn := [(1, false)], selStrOn := [(1, false)], loaded := ok, acc := false, engSel := [] },
                    .int (if ok then 0 else 1))
   | .defSel n file =>
     if !i.loaded then (i, .int 1) else
@@ -239,5 +249,12 @@ def SInst.call (i : SInst) : Call → SInst × SRes
   | .rerun =>
     if !i.loaded then (i, .int 1) else
     ((reopenKeys i.engSel i.selFileOn none).foldl (fun j k => j.punchName k) i, .int 0)
+  | .accumulate => ({ i with acc := true }, .int 0)
+  | .clearAcc => ({ i with acc := false }, .int 0)
+  | .runAcc =>
+    if i.acc then
+      (if !i.loaded then (i, .int 1) else
+       ((reopenKeys i.engSel i.selFileOn none).foldl (fun j k => j.punchName k) i, .int 0))
+    else (i, .int (if i.loaded then 0 else 1))
 
 end PhreeqcVerif.Settings
